@@ -239,6 +239,9 @@ pub fn read_signed_vint(buffer: &[u8]) -> Result<Option<(i64, usize)>, ToolError
 
     let mut value = if is_negative {
         (buffer[0] as i64) | (!0i64 << (8 - length))
+    } else if length == 8 {
+        // the first byte of an 8 byte vint only holds the length marker
+        0
     } else {
         (buffer[0] & (0xFF >> length)) as i64
     };
